@@ -82,15 +82,22 @@ def handle_body(s):
     return int(m.group(1)) if m else 777777
 
 
+# twin of verifCompanion in harness/cmd/verifharness/queue.go
+COMPANION = ["v\"é", "plain-value", "C:\\new\\table.json", "^a\\\\d+$", "C:\\hooks\\inbox", "a<b>&c", "tab\there", "sep\u2028end", "\\u0041\\"]
+
+
 def handle_map(m, key):
     if not m:
         return 0
-    if m.get("X-Verif") != "v\"é" or key not in m or len(m) != 2:
+    if key not in m or len(m) != 2:
         return 777777
     try:
-        return int(m[key])
+        h = int(m[key])
     except ValueError:
         return 777777
+    if m.get("X-Verif") != COMPANION[h % len(COMPANION)]:
+        return 777777
+    return h
 
 
 def reason_n(s):
